@@ -26,6 +26,7 @@ import (
 
 	"github.com/compose-spec/compose-go/v2/loader"
 	"github.com/compose-spec/compose-go/v2/paths"
+	"github.com/compose-spec/compose-go/v2/utils"
 
 	"verifharness/core"
 )
@@ -97,6 +98,81 @@ func c12Remotes(prefixes []string) []paths.RemoteResource {
 	return l
 }
 
+// ---------------------------------------------------------------- a hostile process working directory (round 5)
+//
+// Included / extended files are first resolved against a directory RELATIVE to the project directory; whatever the
+// real code does with such an intermediate value must not depend on the working directory of the process.  An empty
+// private cwd (rounds 1-4) hid a lookup of develop.watch paths from there; now the cwd holds a symbolic link for the
+// first component of every relative directory a case uses, all pointing to an existing decoy directory.
+
+// c12PlantDecoy: in the private scratch cwd (…/cwd-<pid>/p/q/r), make the first real component of the relative
+// path `rel` a symbolic link to a decoy directory (leading ".." climb to q, p; further up is not ours: nothing planted).
+func c12PlantDecoy(rel string) func() {
+	noop := func() {}
+	if c12ScratchCwd == "" || rel == "" || filepath.IsAbs(rel) {
+		return noop
+	}
+	parts := strings.Split(filepath.Clean(rel), "/")
+	dir := c12ScratchCwd
+	up := 0
+	for len(parts) > 0 && parts[0] == ".." {
+		parts = parts[1:]
+		dir = filepath.Dir(dir)
+		up++
+	}
+	if up > 2 || len(parts) == 0 || parts[0] == "." || parts[0] == "" {
+		return noop
+	}
+	target := filepath.Join(filepath.Dir(filepath.Dir(filepath.Dir(c12ScratchCwd))), "decoy-target")
+	if os.MkdirAll(target, 0o755) != nil {
+		return noop
+	}
+	link := filepath.Join(dir, parts[0])
+	if _, err := os.Lstat(link); err == nil {
+		return noop // a directory of the scratch chain itself (p, q, r) or an older link
+	}
+	if os.Symlink(target, link) != nil {
+		return noop
+	}
+	return func() { os.Remove(link) }
+}
+
+// c12DecoyCwd: a fresh working directory for a whole load whose entries (and those of its two ancestors) mirror the
+// names found in the project directory (and its two ancestors), every one a symbolic link to a decoy directory.
+func c12DecoyCwd(projDir string) func() {
+	noop := func() {}
+	base, err := os.MkdirTemp("", "verif-C12-cwd-")
+	if err != nil {
+		return noop
+	}
+	target := filepath.Join(base, "decoy-target")
+	cwd := filepath.Join(base, "p", "q", "r")
+	if os.MkdirAll(target, 0o755) != nil || os.MkdirAll(cwd, 0o755) != nil {
+		os.RemoveAll(base)
+		return noop
+	}
+	src, dst := filepath.Clean(projDir), cwd
+	for level := 0; level < 3; level++ {
+		if ents, err := os.ReadDir(src); err == nil {
+			for _, e := range ents {
+				os.Symlink(target, filepath.Join(dst, e.Name())) // fails for p/q/r themselves: fine
+			}
+		}
+		src, dst = filepath.Dir(src), filepath.Dir(dst)
+	}
+	old, _ := os.Getwd()
+	if os.Chdir(cwd) != nil {
+		os.RemoveAll(base)
+		return noop
+	}
+	return func() {
+		if old != "" {
+			os.Chdir(old)
+		}
+		os.RemoveAll(base)
+	}
+}
+
 // ---------------------------------------------------------------- string-level correspondence
 
 type joinArgs struct {
@@ -148,6 +224,7 @@ func realResolve(raw json.RawMessage) any {
 	if c := c12Prepare(a.Home); c != "" {
 		return map[string]any{"bad": "fs-collision " + c}
 	}
+	defer c12PlantDecoy(a.Wd)() // a relative base: the results are relative, the model consults no file system
 	m, bad := c12Resolve(core.DecodeValRaw(a.Tree), a.Wd, a.Remotes)
 	if bad != nil {
 		return bad
@@ -623,6 +700,7 @@ func init() {
 			if c := c12Prepare(a.Home); c != "" {
 				return map[string]any{"bad": "fs-collision " + c}
 			}
+			defer c12PlantDecoy(a.Rel)() // the first-stage results are relative: nothing may be looked up from the process cwd
 			t := core.DecodeValRaw(a.Tree)
 			one, bad := c12Resolve(core.DeepCopyVal(t), filepath.Join(a.Wd, a.Rel), a.Remotes)
 			if bad != nil {
@@ -819,6 +897,116 @@ func init() {
 				return core.Fail("nonidempotent:develop.watch:"+a.Name, fmt.Sprintf("watch path %q resolves to %s, resolving again gives %v %s", a.Path, *r.First, r.Second, r.SecondErr))
 			}
 			return tie()
+		},
+	})
+
+	// ---- utils.ResolveSymbolicLink on strings (round 5): the process sits in a directory of the link tree and the
+	// function is handed (a) the path as written — RELATIVE: it is not anchored, nothing may be looked up, the property
+	// wants it back unchanged (the base directory is joined later) — and (b) the absolute path.
+	// Correspondence: Sym.resolveStr over the link table read off the temp directory.
+	core.Register("c12.symstr", &core.CheckDef{
+		Timeout: c12Timeout,
+		Real: func(raw json.RawMessage) any {
+			var a symlinkArgs
+			json.Unmarshal(raw, &a)
+			files := map[string]string{}
+			for _, d := range a.Dirs {
+				files[d+"/.keep"] = ""
+			}
+			root, err := core.Materialize(files)
+			defer os.RemoveAll(root)
+			if err != nil {
+				return map[string]any{"bad": err.Error()}
+			}
+			for _, l := range a.Links {
+				target := l[1]
+				if strings.HasPrefix(target, "$ROOT") {
+					target = root + strings.TrimPrefix(target, "$ROOT")
+				}
+				os.MkdirAll(filepath.Dir(filepath.Join(root, l[0])), 0o755)
+				if err := os.Symlink(target, filepath.Join(root, l[0])); err != nil {
+					return map[string]any{"bad": err.Error()}
+				}
+			}
+			comps := func(p string) []string { return strings.Split(strings.TrimPrefix(filepath.Clean(p), "/"), "/") }
+			links := [][]any{}
+			filepath.Walk(root, func(p string, info os.FileInfo, err error) error {
+				if err == nil && info.Mode()&os.ModeSymlink != 0 {
+					if t, err := filepath.EvalSymlinks(p); err == nil {
+						links = append(links, []any{comps(p), comps(t)})
+					} else {
+						links = append(links, []any{comps(p), nil})
+					}
+				}
+				return nil
+			})
+			old, _ := os.Getwd()
+			defer os.Chdir(old)
+			if err := os.Chdir(filepath.Join(root, a.Wd)); err != nil {
+				return map[string]any{"bad": "chdir: " + err.Error()}
+			}
+			in := a.Path
+			if strings.HasPrefix(in, "$ROOT") {
+				in = filepath.Clean(root + strings.TrimPrefix(in, "$ROOT"))
+			}
+			res := map[string]any{"links": links, "in": in, "root": root}
+			if out, err := utils.ResolveSymbolicLink(in); err != nil {
+				res["err"] = true
+			} else {
+				res["out"] = out
+			}
+			return res
+		},
+		DriverOp: "c12.symstr",
+		DriverArgs: func(args, real json.RawMessage) any {
+			var r struct {
+				Links json.RawMessage `json:"links"`
+				In    string          `json:"in"`
+			}
+			json.Unmarshal(real, &r)
+			return map[string]any{"links": r.Links, "path": r.In}
+		},
+		Judge: func(args, real, drv json.RawMessage) *core.Verdict {
+			if v := core.CrashVerdict(real); v != nil {
+				return v
+			}
+			var a symlinkArgs
+			json.Unmarshal(args, &a)
+			var r struct {
+				In   string  `json:"in"`
+				Root string  `json:"root"`
+				Out  *string `json:"out"`
+				Err  bool    `json:"err"`
+				Bad  string  `json:"bad"`
+			}
+			var d struct {
+				Ok  *string `json:"ok"`
+				Err bool    `json:"err"`
+			}
+			if json.Unmarshal(real, &r) != nil || json.Unmarshal(drv, &d) != nil {
+				return core.Disagree("malformed exchange")
+			}
+			if r.Bad != "" {
+				return core.Skip(r.Bad)
+			}
+			scrub := func(x string) string { return strings.ReplaceAll(x, r.Root, "$ROOT") }
+			// oracle: a relative path comes back as it is, whatever the process directory holds
+			if !filepath.IsAbs(r.In) {
+				if r.Err || r.Out == nil || *r.Out != r.In {
+					got := "an error"
+					if r.Out != nil {
+						got = scrub(*r.Out)
+					}
+					return core.Fail("symlink-relative:looked-up-from-process-cwd", fmt.Sprintf("ResolveSymbolicLink(%q) with the process in %q answers %s: the components of a path that is not anchored yet were looked up from the working directory of the process (%s)", r.In, a.Wd, got, a.Name))
+				}
+			}
+			switch {
+			case d.Err != r.Err:
+				return core.Disagree(fmt.Sprintf("Sym.resolveStr ≠ ResolveSymbolicLink(%q): model err=%v, real err=%v", scrub(r.In), d.Err, r.Err))
+			case !r.Err && (d.Ok == nil || r.Out == nil || *d.Ok != *r.Out):
+				return core.Disagree(fmt.Sprintf("Sym.resolveStr ≠ ResolveSymbolicLink(%q): model %v, real %v", scrub(r.In), d.Ok, r.Out))
+			}
+			return nil
 		},
 	})
 
@@ -1329,6 +1517,26 @@ func runC12(ctx *core.Ctx) {
 			}
 		}
 	}
+	// round 5: the same link trees, the function called directly — on the path as written (relative) with the process in
+	// the project directory, in its parent and in a sibling, and on the absolute clean path
+	symstr := func(c symlinkArgs, kind string) {
+		for _, wd := range []string{c.Wd, filepath.Dir(c.Wd), "."} {
+			r := c
+			r.Wd = wd
+			ctx.Add("c12.symstr", r)
+			ctx.Count("symstr:relative:" + kind)
+			r.Path = filepath.Join(c.Wd, c.Path) // what a first stage against the relative directory `Wd` hands over
+			ctx.Add("c12.symstr", r)
+			ctx.Count("symstr:relative-joined:" + kind)
+		}
+		r := c
+		r.Path = "$ROOT/" + filepath.Join(c.Wd, c.Path)
+		ctx.Add("c12.symstr", r)
+		ctx.Count("symstr:absolute:" + kind)
+	}
+	for _, c := range c12SymlinkCases {
+		symstr(c, "named")
+	}
 	for _, c := range c12SymlinkCases {
 		ctx.Add("c12.symlink", c)
 		ctx.Count("symlink:" + c.Name)
@@ -1361,6 +1569,9 @@ func runC12(ctx *core.Ctx) {
 		c.Path = pick(names) + "/" + pick(names) + "/" + pick([]string{"x", "a", "b"})
 		ctx.Add("c12.symlink", c)
 		ctx.Count("symlink:random")
+		if i%3 == 0 {
+			symstr(c, "random")
+		}
 	}
 
 	runC12Loads(ctx)
